@@ -36,7 +36,8 @@ def gen_patch(rnd):
     files = []
     for _ in range(rnd.randint(1, 4)):
         path = rnd.choice(NAMES)
-        prefix = rnd.choice(["b/", "b/", "", "new/v2/"])
+        # relative, nested, ABSOLUTE (diff -u /abs/old /abs/new: the first component is empty) and doubled-slash spellings
+        prefix = rnd.choice(["b/", "b/", "", "new/v2/", "/w/new/", "/", "b//", "./"])
         hunks = []
         line = 1
         for _ in range(rnd.randint(0, 4)):
